@@ -3,7 +3,12 @@ package gf2p16
 // Native replay of asmsym counterexamples: the real assembly kernel is called
 // on canary-bracketed buffers of the length found by the solver.
 
-import rt "github.com/akalin/gopar/internal/zzverifrt"
+import (
+	"encoding/json"
+	"os"
+
+	rt "github.com/akalin/gopar/internal/zzverifrt"
+)
 
 func init() { rt.Register("C09_asm_replay", VerifHarness_C09_asm_replay) }
 
@@ -77,4 +82,50 @@ func VerifHarness_C09_asm_replay() {
 	}
 	rt.Assert(ok, "out word == c * in word (native)")
 	rt.Assert(inOK, "input unchanged (native)")
+}
+
+// Translator validation of asmsym: the outputs asmsym computes by executing
+// the disassembled instruction list on concrete inputs must equal what the
+// real assembly produces on the same inputs.
+func init() { rt.Register("C09_asm_validate", VerifHarness_C09_asm_validate) }
+
+type asmValCase struct {
+	Kernel int    `json:"kernel"`
+	C      uint16 `json:"c"`
+	In     []byte `json:"in"`
+	Out0   []byte `json:"out0"`
+	Out    []byte `json:"out"`
+}
+
+func VerifHarness_C09_asm_validate() {
+	b, err := os.ReadFile(os.Getenv("VERIF_ASM_CASES"))
+	if err != nil {
+		panic(err)
+	}
+	var cases []asmValCase
+	if err := json.Unmarshal(b, &cases); err != nil {
+		panic(err)
+	}
+	rt.Assert(len(cases) >= 12, "validation cases present")
+	for _, c := range cases {
+		in := append([]byte(nil), c.In...)
+		out := append([]byte(nil), c.Out0...)
+		switch c.Kernel {
+		case 0:
+			mulByteSliceLEUnsafe(&mulTable[c.C], in, out)
+		case 1:
+			mulAndAddByteSliceLEUnsafe(&mulTable[c.C], in, out)
+		case 2:
+			mulSliceSSSE3Unsafe(&mulTable64[c.C], in, out)
+		default:
+			mulAndAddSliceSSSE3Unsafe(&mulTable64[c.C], in, out)
+		}
+		same := len(out) == len(c.Out)
+		for i := range out {
+			if i < len(c.Out) && out[i] != c.Out[i] {
+				same = false
+			}
+		}
+		rt.Assert(same, "asmsym's concrete execution of the kernel equals the real assembly's result")
+	}
 }
